@@ -1,7 +1,9 @@
 #!/usr/bin/env python3
 """Imports confirmed sub-agent mutants into /verif/seeded/<id>/ and records which checks catch them.
-usage: seeded_import.py /tmp/mutout  (expects Cxx/{a,b}/{patch.diff,demo_test.go,notes.md,confirm.json})
+usage: seeded_import.py /tmp/mutout [round-tag]  (expects Cxx/{a,b,c}/{patch.diff,demo_test.go,notes.md,confirm.json});
+ids are Cxx-a (no tag) or Cxx-<tag>a. The matrix is rebuilt from every seeded/*/meta.json.
 """
+import concurrent.futures as cf
 import json, os, re, shutil, subprocess, sys, tempfile, glob
 
 VERIF = os.path.dirname(os.path.abspath(__file__))
@@ -34,10 +36,9 @@ def run_all(patch):
 
 def main():
     root = sys.argv[1]
-    rows = []
-    for d in sorted(glob.glob(os.path.join(root, "C??", "[ab]"))):
-        prop = d.split("/")[-2]
-        ab = d.split("/")[-1]
+    tag = sys.argv[2] if len(sys.argv) > 2 else ""
+    jobs = []
+    for d in sorted(glob.glob(os.path.join(root, "C??", "[abc]"))):
         cj = os.path.join(d, "confirm.json")
         if not os.path.exists(cj):
             continue
@@ -45,8 +46,13 @@ def main():
         if not conf.get("confirmed"):
             print("skip (not confirmed)", d)
             continue
-        sid = "%s-%s" % (prop, ab)
-        caught, err = run_all(os.path.join(d, "patch.diff"))
+        jobs.append((d, conf))
+    with cf.ThreadPoolExecutor(max_workers=int(os.environ.get("JOBS", "5"))) as ex:
+        results = list(ex.map(lambda j: run_all(os.path.join(j[0], "patch.diff")), jobs))
+    for (d, conf), (caught, err) in zip(jobs, results):
+        prop = d.split("/")[-2]
+        ab = d.split("/")[-1]
+        sid = "%s-%s%s" % (prop, tag, ab)
         if caught is None:
             print("skip", sid, err[:200])
             continue
@@ -64,7 +70,8 @@ def main():
         meta = {
             "id": sid,
             "breaks_property": prop,
-            "origin": "independent sub-agent given only the property text and a scratch worktree",
+            "round": 2 if tag else 1,
+            "origin": "independent sub-agent given only the property text and a scratch worktree" + (" (round 2: told what round 1 produced and asked for other mechanisms)" if tag else ""),
             "summary": first.lstrip("# ").strip(),
             "needs_to_manifest": needs,
             "confirmed_by_me": {
@@ -76,9 +83,13 @@ def main():
             "caught_by": caught,
         }
         json.dump(meta, open(os.path.join(out, "meta.json"), "w"), indent=1)
-        rows.append((sid, prop in caught, sorted(caught)))
         print(sid, "OWN" if prop in caught else "MISSED-BY-OWN", sorted(caught))
-    json.dump([{"id": a, "own": b, "checks": c} for a, b, c in rows], open(os.path.join(VERIF, "seeded", "matrix.json"), "w"), indent=1)
+    rows = []
+    for mj in sorted(glob.glob(os.path.join(VERIF, "seeded", "*", "meta.json"))):
+        m = json.load(open(mj))
+        rows.append({"id": m["id"], "own": m["caught_by_own_property_check"], "checks": sorted(m["caught_by"])})
+    json.dump(rows, open(os.path.join(VERIF, "seeded", "matrix.json"), "w"), indent=1)
+    print("matrix: %d seeded changes, %d caught by their own property's check" % (len(rows), sum(1 for r in rows if r["own"])))
 
 if __name__ == "__main__":
     main()
